@@ -499,6 +499,23 @@ class Interp:
         return DictV(items)
 
     def ex_JoinedStr(self, node):
+        if getattr(self.models, "text_templates", False):
+            parts = []
+            for v in node.values:
+                if isinstance(v, ast.Constant):
+                    parts.append(("lit", v.value))
+                    continue
+                val = self.eval(v.value)
+                spec = self.ex_JoinedStr(v.format_spec) if v.format_spec is not None else StrV("")
+                if v.conversion == ord("r"):
+                    parts.append(("val", StrV(None, "repr")))
+                    continue
+                how = "str" if v.conversion in (ord("s"), ord("a")) else "format"
+                t = self.models.text_of(val, spec, v, how=how)
+                if how == "str" and isinstance(spec, StrV) and spec.const:
+                    t = StrV(None, "formatted")
+                parts.extend(self.models.text_parts(t))
+            return self.models.mk_text(parts)
         for v in node.values:
             if isinstance(v, ast.FormattedValue):
                 self.eval(v.value)     # may fail (attribute of None etc.)
